@@ -4,13 +4,17 @@ use crate::catalogue;
 use crate::modeled::{hex, hex_or_dash, val_string, Modeled, G};
 use crate::rng::Rng;
 use crate::Ctx;
-use parity_scale_codec::{Compact, CompactLen, Decode, DecodeAll, DecodeLimit, Encode};
+use parity_scale_codec::{
+	Compact, CompactLen, CountedInput, Decode, DecodeAll, DecodeLimit, DecodeWithMemTracking, Encode, Input, MemTrackingInput,
+};
 use std::panic::{catch_unwind, AssertUnwindSafe};
 
 pub fn run_stream(ctx: &mut Ctx, name: &str) {
 	match name {
 		"compact" => compact_stream(ctx),
-		"enc" | "rt" | "mut" | "rand" | "exh" | "cut" | "decall" | "skip" => catalogue::run_all(ctx, name),
+		"enc" | "rt" | "mut" | "rand" | "exh" | "cut" | "decall" | "skip" | "count" | "limit" | "mem" =>
+			catalogue::run_all(ctx, name),
+		"wrapops" => wrapops_stream(ctx),
 		"len" => len_stream(ctx),
 		"concat" => {
 			catalogue::run_all(ctx, "pool");
@@ -581,6 +585,104 @@ pub fn run_type<T: Cat + DecodeAll + DecodeLimit>(ctx: &mut Ctx, stream: &str, n
 				}
 			}
 		},
+		"count" => {
+			for i in 0..n_vals {
+				g.budget = o.budget;
+				let v = T::gen(&mut g);
+				g.budget = o.budget;
+				let w = T::gen(&mut g);
+				let mut bs = v.encode();
+				match i % 4 {
+					0 => {},
+					1 => bs.push(g.rng.below(256) as u8),
+					2 => bs = mutate(&mut g.rng, &bs, &w.encode(), !o.zero_width_elems),
+					_ => {
+						let cut = g.rng.below(bs.len() as u64 + 1) as usize;
+						bs.truncate(cut)
+					},
+				}
+				let r = catch_unwind(AssertUnwindSafe(|| {
+					let mut s = &bs[..];
+					let mut ci = CountedInput::new(&mut s);
+					let r = T::decode(&mut ci);
+					let c = ci.count();
+					(r, s.len(), c)
+				}));
+				let ans = match r {
+					Ok((r, rem, c)) => {
+						// oracle (C19): count == bytes the slice delivered, after success and after failure
+						if c != (bs.len() - rem) as u64 {
+							ctx.oracle_fail("C19", format!("{}: count() = {} but the slice delivered {} bytes (input {}, ok = {})", name, c, bs.len() - rem, hex_or_dash(&bs), r.is_ok()));
+						}
+						match r {
+							Ok(x) => {
+								if i % 4 == 0 && c != v.encode().len() as u64 {
+									ctx.oracle_fail("C19", format!("{}: count() = {} after decoding an encoding of {} bytes", name, c, v.encode().len()));
+								}
+								format!("ok {} {} count={}", val_string(&x, true), rem, c)
+							},
+							// after a failure the position (hence the count) depends on where the decoder stopped:
+							// it is judged by the oracle above, not compared with the model
+							Err(_) => "err".to_string(),
+						}
+					},
+					Err(_) => "panic".into(),
+				};
+				ctx.emit("count", name, &format!("count {} {}", T::ty(bs.len() + 1), hex_or_dash(&bs)), &ans);
+			}
+		},
+		"limit" => {
+			for i in 0..(n_vals / 3).max(5) {
+				g.budget = o.budget;
+				let v = T::gen(&mut g);
+				g.budget = o.budget;
+				let w = T::gen(&mut g);
+				let mut bs = v.encode();
+				if i % 3 == 1 {
+					bs = mutate(&mut g.rng, &bs, &w.encode(), !o.zero_width_elems);
+				} else if i % 3 == 2 {
+					bs.push(g.rng.below(256) as u8);
+				}
+				let (unl, _) = dec_answer::<T>(&bs);
+				let mut need: Option<u32> = None;
+				let mut prev_ok = false;
+				let mut l = 0u32;
+				loop {
+					let r = catch_unwind(AssertUnwindSafe(|| {
+						let mut s = &bs[..];
+						let r = T::decode_with_depth_limit(l, &mut s);
+						(r, s.len())
+					}));
+					let ans = match r {
+						Ok((Ok(x), rem)) => format!("ok {} {}", val_string(&x, true), rem),
+						Ok((Err(_), _)) => "err".into(),
+						Err(_) => "panic".into(),
+					};
+					ctx.emit("limit", name, &format!("limit {} {} {}", l, T::ty(bs.len() + 1), hex_or_dash(&bs)), &ans);
+					let ok = ans.starts_with("ok");
+					// oracles (C11): transparent; monotone
+					if ok && ans != unl {
+						ctx.oracle_fail("C11", format!("{}: limit {} returned {} but unlimited gives {}", name, l, &ans[..ans.len().min(60)], &unl[..unl.len().min(60)]));
+					}
+					if prev_ok && !ok {
+						ctx.oracle_fail("C11", format!("{}: succeeded with limit {} but failed with limit {} on {}", name, l - 1, l, hex_or_dash(&bs)));
+					}
+					if ok && need.is_none() {
+						need = Some(l);
+					}
+					prev_ok = ok;
+					l += 1;
+					match need {
+						Some(n) if l > n + 2 => break,
+						None if l > 12 => break,
+						_ => {},
+					}
+				}
+				if unl.starts_with("ok") && need.is_none() {
+					ctx.oracle_fail("C11", format!("{}: unlimited decode succeeds but no limit up to 12 does: {}", name, hex_or_dash(&bs)));
+				}
+			}
+		},
 		"exh" => {
 			let mut strings: Vec<Vec<u8>> = vec![vec![]];
 			for a in 0..=255u8 {
@@ -806,4 +908,220 @@ fn len_stream(ctx: &mut Ctx) {
 	len_for::<(Vec<u16>, u32)>(ctx, "(Vec<u16>,u32)", |v| v.0.len());
 	len_for::<(BTreeSet<u8>, String, u8)>(ctx, "(BTreeSet<u8>,String,u8)", |v| v.0.len());
 	len_for::<(VecDeque<u8>, Vec<u8>, u8, u8)>(ctx, "(VecDeque<u8>,Vec<u8>,u8,u8)", |v| v.0.len());
+}
+
+// ---------------------------------------------------------------------------------------------
+// Memory-limited decoding (C12)
+// ---------------------------------------------------------------------------------------------
+
+fn mem_run<T: Cat + DecodeWithMemTracking>(bs: &[u8], limit: usize) -> (String, usize) {
+	let r = catch_unwind(AssertUnwindSafe(|| {
+		let mut s = &bs[..];
+		let mut mi = MemTrackingInput::new(&mut s, limit);
+		let r = T::decode(&mut mi);
+		let used = mi.used_mem();
+		(r, s.len(), used)
+	}));
+	match r {
+		Ok((Ok(x), rem, used)) => (format!("ok {} {} used={}", val_string(&x, true), rem, used), used),
+		Ok((Err(_), _, used)) => (format!("err used={}", used), used),
+		Err(_) => ("panic".into(), 0),
+	}
+}
+
+pub fn run_mem_type<T: Cat + DecodeWithMemTracking>(ctx: &mut Ctx, name: &'static str, o: &TypeOpts) {
+	let thorough = ctx.tier_thorough;
+	let tyseed = name.bytes().fold(ctx.seed, |a, b| a.wrapping_mul(31).wrapping_add(b as u64));
+	let mut g = G::new(tyseed ^ 0x3E3, o.budget);
+	let n = if thorough { 120 } else { 12 };
+	for i in 0..n {
+		g.budget = o.budget;
+		let v = T::gen(&mut g);
+		g.budget = o.budget;
+		let w = T::gen(&mut g);
+		let mut bs = v.encode();
+		if i % 3 == 1 {
+			bs = mutate(&mut g.rng, &bs, &w.encode(), !o.zero_width_elems);
+		}
+		let (unl, _) = dec_answer::<T>(&bs);
+		let (top, u) = mem_run::<T>(&bs, usize::MAX);
+		let ty = T::ty(bs.len() + 1);
+		ctx.emit("mem", name, &format!("mem {} {} {}", usize::MAX, ty, hex_or_dash(&bs)), &top);
+		// oracle (C12): a non-binding limit is transparent
+		if unl.starts_with("ok") && !top.starts_with(&unl) {
+			ctx.oracle_fail("C12", format!("{}: limit usize::MAX gives {} but unlimited gives {}", name, &top[..top.len().min(60)], &unl[..unl.len().min(60)]));
+		}
+		let cap = if thorough { 4096 } else { 96 };
+		let limits: Vec<usize> = if u <= cap {
+			(0..=u + 1).collect()
+		} else {
+			vec![0, 1, u / 2, u - 1, u, u + 1, u.saturating_mul(2)]
+		};
+		for l in limits {
+			let (ans, _) = mem_run::<T>(&bs, l);
+			ctx.emit("mem", name, &format!("mem {} {} {}", l, ty, hex_or_dash(&bs)), &ans);
+			if unl.starts_with("ok") {
+				// oracle (C12): single threshold U
+				if l > u && !ans.starts_with(&unl) {
+					ctx.oracle_fail("C12", format!("{}: L = {} > U = {} but limited decode gives {}", name, l, u, &ans[..ans.len().min(60)]));
+				}
+				if u > 0 && l <= u && !ans.starts_with("err") {
+					ctx.oracle_fail("C12", format!("{}: L = {} <= U = {} but limited decode succeeded", name, l, u));
+				}
+			} else if ans.starts_with("ok") {
+				ctx.oracle_fail("C12", format!("{}: unlimited decode fails but limit {} succeeds", name, l));
+			}
+		}
+	}
+}
+
+// ---------------------------------------------------------------------------------------------
+// The wrappers themselves, driven with arbitrary operation sequences (C19, C12)
+// ---------------------------------------------------------------------------------------------
+
+fn gen_ops(rng: &mut Rng, remaining: usize) -> Vec<String> {
+	let long = rng.chance(1, 8);
+	let n = 1 + rng.below(if long { 100 } else { 12 }) as usize;
+	let mut ops = vec![];
+	let mut rem = remaining;
+	for _ in 0..n {
+		let op = match rng.below(10) {
+			0..=3 => {
+				let k = match rng.below(7) {
+					0 => 0,
+					1 => 1,
+					2 => rem,
+					3 => rem + 1,
+					4 => rng.below(5) as usize,
+					5 => usize::MAX / 2,
+					_ => rng.below(rem as u64 + 1) as usize,
+				};
+				if k <= rem {
+					rem -= k;
+				}
+				format!("r{}", k)
+			},
+			4..=5 => {
+				rem = rem.saturating_sub(1);
+				"b".to_string()
+			},
+			6 => "l".to_string(),
+			7 => "d".to_string(),
+			8 => "a".to_string(),
+			_ => {
+				let k = match rng.below(6) {
+					0 => 0,
+					1 => usize::MAX,
+					2 => usize::MAX - rng.below(100) as usize,
+					3 => usize::MAX / 2 + 1,
+					_ => rng.below(5000) as usize,
+				};
+				format!("m{}", k)
+			},
+		};
+		ops.push(op);
+	}
+	ops
+}
+
+fn apply_op<I: Input>(i: &mut I, op: &str) -> String {
+	let arg = || op[1..].parse::<usize>().unwrap();
+	match &op[..1] {
+		"r" => {
+			let n = arg();
+			if n > 1 << 24 {
+				// a buffer that large cannot be allocated; over a slice the wrapped read fails on length alone
+				return match i.remaining_len() {
+					Ok(Some(r)) if r < n => "e".into(),
+					_ => "skip".into(),
+				};
+			}
+			let mut buf = vec![0u8; n];
+			match i.read(&mut buf) {
+				Ok(()) => format!("k{}", hex(&buf)),
+				Err(_) => "e".into(),
+			}
+		},
+		"b" => match i.read_byte() {
+			Ok(b) => format!("k{:02x}", b),
+			Err(_) => "e".into(),
+		},
+		"l" => match i.remaining_len() {
+			Ok(Some(n)) => format!("s{}", n),
+			Ok(None) => "n".into(),
+			Err(_) => "e".into(),
+		},
+		"d" => match i.descend_ref() {
+			Ok(()) => "k".into(),
+			Err(_) => "e".into(),
+		},
+		"a" => {
+			i.ascend_ref();
+			"k".into()
+		},
+		"m" => match i.on_before_alloc_mem(arg()) {
+			Ok(()) => "k".into(),
+			Err(_) => "e".into(),
+		},
+		_ => unreachable!(),
+	}
+}
+
+fn wrapops_stream(ctx: &mut Ctx) {
+	let mut rng = Rng::new(ctx.seed ^ 0x0B5);
+	let n = if ctx.tier_thorough { 40_000 } else { 4_000 };
+	for _ in 0..n {
+		let len = rng.below(40) as usize;
+		let data: Vec<u8> = (0..len).map(|_| rng.below(256) as u8).collect();
+		let ops = gen_ops(&mut rng, len);
+		// CountedInput over a slice
+		{
+			let mut s = &data[..];
+			let mut ci = CountedInput::new(&mut s);
+			let mut out = vec![];
+			let mut consumed_before = 0usize;
+			let mut bad = None;
+			for op in &ops {
+				let r = apply_op(&mut ci, op);
+				out.push(format!("{}:{}", r, ci.count()));
+				let _ = consumed_before;
+				consumed_before = 0;
+				if r == "skip" {
+					bad = Some(op.clone());
+				}
+			}
+			let c = ci.count();
+			// oracle (C19): count == bytes delivered by the slice, for any operation sequence
+			if c != (data.len() - s.len()) as u64 {
+				ctx.oracle_fail("C19", format!("CountedInput: count() = {} but the slice delivered {} bytes after ops {:?} on {}", c, data.len() - s.len(), ops, hex_or_dash(&data)));
+			}
+			if bad.is_none() {
+				ctx.emit("countops", "CountedInput<&[u8]>", &format!("cops {} {}", hex_or_dash(&data), ops.join(" ")), &out.join(" "));
+			}
+		}
+		// MemTrackingInput over a slice
+		{
+			let limit = match rng.below(6) {
+				0 => 0,
+				1 => usize::MAX,
+				2 => 1,
+				3 => usize::MAX - 1,
+				_ => rng.below(10000) as usize,
+			};
+			let mut s = &data[..];
+			let mut mi = MemTrackingInput::new(&mut s, limit);
+			let mut out = vec![];
+			let mut skip = false;
+			for op in &ops {
+				let r = apply_op(&mut mi, op);
+				if r == "skip" {
+					skip = true;
+				}
+				out.push(format!("{}:{}", r, mi.used_mem()));
+			}
+			if !skip {
+				ctx.emit("memops", "MemTrackingInput<&[u8]>", &format!("mops {} {} {}", limit, hex_or_dash(&data), ops.join(" ")), &out.join(" "));
+			}
+		}
+	}
 }
